@@ -1,7 +1,7 @@
 (* C08 — output stream: next-message lookup correct under every interleaving of the
    lock-protected sections, for any number of reader threads (liveness as safety: Go scheduler
    fairness is not modelled).  [exec ls r]: r is reached from the fresh stream by the labels ls
-   (Add/Delete/Get/reader sections/cancel/Interrupt/cache eviction/thread creation), each
+   (Add/Delete/Get/reader sections/cancel/Interrupt/Close/cache eviction/thread creation), each
    obeying the schedule discipline [ok_label]; [contents ls]: what was added and not deleted. *)
 From Coq Require Import NArith List.
 From stdpp Require Import gmap.
@@ -35,7 +35,8 @@ Proof. exact no_lost_wakeup. Qed.
 Print Assumptions C08_no_lost_wakeup.
 
 Theorem C08_reader_returns_successor : forall ls c t th k b,
-  exec ls (Running c) -> c_threads c !! t = Some th -> (forall r, t_st th <> TDone r) ->
+  exec ls (Running c) -> is_closed ls = false ->
+  c_threads c !! t = Some th -> (forall r, t_st th <> TDone r) ->
   is_successor (contents ls) (t_x th) k b ->
   exists c', cstep c (LReader t) = Some (Running c') /\
              c_threads c' !! t = Some (Thread (t_x th) (TDone (Some (k, b))) (t_cancelled th)).
@@ -43,7 +44,7 @@ Proof. exact reader_returns_successor. Qed.
 Print Assumptions C08_reader_returns_successor.
 
 Theorem C08_broadcast_wakes_all : forall c l c' t th,
-  (l = LInterrupt \/ exists id m, l = LAdd id m) ->
+  (l = LInterrupt \/ l = LClose \/ exists id m, l = LAdd id m) ->
   cstep c l = Some (Running c') -> c_threads c' !! t = Some th -> t_st th <> TWait.
 Proof. exact broadcast_wakes_all. Qed.
 Print Assumptions C08_broadcast_wakes_all.
@@ -57,9 +58,40 @@ Proof. exact cancel_returns_empty. Qed.
 Print Assumptions C08_cancel.
 
 Theorem C08_empty_only_if_cancelled : forall ls c t th,
-  exec ls (Running c) -> c_threads c !! t = Some th -> t_st th = TDone None -> t_cancelled th = true.
-Proof. exact empty_only_if_cancelled. Qed.
+  exec ls (Running c) -> c_threads c !! t = Some th -> t_st th = TDone None ->
+  t_cancelled th = true \/ is_closed ls = true.
+Proof. exact empty_only_if_cancelled_or_closed. Qed.
 Print Assumptions C08_empty_only_if_cancelled.
+
+(* Close (d929c6d): after Close no reader stays blocked - none is suspended, and the next section of
+   every GetNext that is running (parked when Close happened, or started afterwards) returns empty *)
+Theorem C08_close_wakes_readers : forall ls c t th,
+  exec ls (Running c) -> is_closed ls = true -> c_threads c !! t = Some th ->
+  t_st th <> TWait /\
+  ((t_st th = TStart \/ t_st th = TLoop) ->
+   exists c', cstep c (LReader t) = Some (Running c') /\
+              c_threads c' !! t = Some (Thread (t_x th) (TDone None) (t_cancelled th)) /\
+              c_closed c' = true).
+Proof. exact close_wakes_readers. Qed.
+Print Assumptions C08_close_wakes_readers.
+
+Theorem C08_closed_iff_close_happened : forall ls c,
+  exec ls (Running c) -> c_closed c = is_closed ls.
+Proof. exact closed_iff_close_happened. Qed.
+Print Assumptions C08_closed_iff_close_happened.
+
+Theorem C08_closed_is_stable : forall ls l, is_closed ls = true -> is_closed (ls ++ [l]) = true.
+Proof. exact closed_is_stable. Qed.
+Print Assumptions C08_closed_is_stable.
+
+(* executions without Close: the extra side condition of [exec] on closed streams is vacuous, so
+   every theorem above is, for them, the statement it was before Close existed
+   (is_closed ls = false: C08_reader_returns_successor applies, C08_empty_only_if_cancelled
+   gives t_cancelled th = true) *)
+Theorem C08_no_close_discipline : forall ls l,
+  is_closed ls = false -> (is_closed ls = true -> ok_after_close l).
+Proof. exact no_close_discipline. Qed.
+Print Assumptions C08_no_close_discipline.
 
 Theorem C08_property_discipline : forall ls l,
   (forall l', In l' ls -> l' <> LDelete 0) ->
